@@ -120,7 +120,13 @@ class CIGAR(list):
         if not re.match(r"^([0-9]+[MIDP])+\Z", string):
           raise gfapy.FormatError()
     for m in re.finditer("([0-9]+)([MIDNSHPX=])", string):
-      cigar.append(CIGAR.Operation(int(m.group(1)), m.group(2)))
+      try:
+        oplen = int(m.group(1))
+      except ValueError:
+        # more digits than int() converts
+        raise gfapy.FormatError(
+            "The length of a CIGAR operation cannot be converted to an integer")
+      cigar.append(CIGAR.Operation(oplen, m.group(2)))
     return cigar
 
   def __str__(self):
